@@ -232,6 +232,10 @@ def main(argv=None):
             for name, n in fl.get("counters", {}).items():
                 if agg["counters"].get(name, 0) < n:
                     inconclusive.append(f"must-reach {name}={agg['counters'].get(name, 0)} < {n}")
+            for name, n in fl.get("hist_sizes", {}).items():
+                have = len(agg["hists"].get(name, {}))
+                if have < n:
+                    inconclusive.append(f"must-reach distinct {name} classes={have} < {n}")
             nbf = sum(agg["build_failures"].values())
             if nbf and nbf > 0.01 * max(1, agg["evaluations"]):
                 inconclusive.append(f"workload construction failed in {nbf} cases: {dict(agg['build_failures'])}")
@@ -287,6 +291,7 @@ def main(argv=None):
                 "exhaustive": bool(mod.exhaustive(args.tier)) if hasattr(mod, "exhaustive") else False,
                 "monitor_counters": dict(sorted(agg["counters"].items())),
                 "class_histograms": {k: dict(sorted(v.items(), key=lambda kv: -kv[1])[:40]) for k, v in agg["hists"].items()},
+                "class_histogram_sizes": {k: len(v) for k, v in agg["hists"].items()},
                 "shards": len(specs),
                 "worker_status": dict(agg["worker_status"]),
                 "known_finding_hits": {k: h.get("total", h["witnesses"]) for k, h in known_hits.items()},
